@@ -431,7 +431,9 @@ def coll_oracle(interp, env, f, args, t, bb, path):
             if its is None:
                 return TOP
             by_copy = "Extend<&" in k          # `impl Extend<&'a T> for Vec<T>` copies out of the references
-            view_set(interp, v0, items + [load1(interp, env, x) if by_copy else (x if isinstance(x, HRef) else load(interp, env, x)) for x in its])
+            src_v = load(interp, env, args[1])
+            from_iter = isinstance(src_v, It)           # an iterator's items are what they are (possibly references kept as such)
+            view_set(interp, v0, items + [load1(interp, env, x) if by_copy else (x if (from_iter and isinstance(x, HRef) and nm == "extend") else load(interp, env, x)) for x in its])
             if nm == "append":
                 src = load(interp, env, args[1])
                 if isinstance(src, Vec):
